@@ -16,14 +16,14 @@ func init() { harness.Register("C17", "exploration", runC17) }
 func runC17(r *harness.Run) {
 	pr := &progRunner{r: r, prop: "C17", opts: lua.Options{}}
 	th := r.Thorough()
-	gens := map[string]Gen{"F-faultline": genFaultLine(th), "F-getinfo": genGetInfo(th), "F-locals": genLocals(th), "F-nestlocals": genNestLocals(th), "F-crlf": genCRLFProgs(),
+	gens := map[string]Gen{"F-faultline": genFaultLine(th), "F-getinfo": genGetInfo(th), "F-locals": genLocals(th), "F-nestlocals": genNestLocals(th), "F-firstblock": genFirstBlock(), "F-crlf": genCRLFProgs(),
 		"B-crlf/F-crlf": bufBoundary(genCRLFProgs(), "\r\n"), "B-lfcr/F-crlf": bufBoundary(genCRLFProgs(), "\n\r"), "B-crlf/F-getinfo": bufBoundary(genGetInfo(false), "\r\n"), "B-crlf/F-locals": bufBoundary(genLocals(false), "\r\n")}
 	r.Rule = "fault sites (arithmetic/index/call/compare/concat/length/for on wrong types, error() at levels 0/1/2, failing sub-expressions in argument lists, constructors, conditions, method calls, returns) x enclosing block kind x every member of a layout set (LF/CR/CRLF/LFCR, tabs, indentation, semicolons, leading blank lines, four comment forms, redundant parentheses, and a line break inserted at every single token gap of the program); " +
 		"the reference interpreter derives the admissible line range from the token lines the printer recorded for that very layout; debug.getinfo currentline/linedefined/lastlinedefined probes and debug.getlocal/getupvalue/setlocal/setupvalue probes inserted at every statement gap of a set of scope-exercising programs, again under layouts"
 	r.Assumptions = []string{"a statement spread over several lines admits any of its lines (the property says 'names a line of the innermost statement')", "names starting with '(' (temporaries, hidden loop variables) are ignored in local enumerations", "upvalue enumerations are compared as sets (sorted by name)"}
 	runPinned(r, "C17")
 	shebangLines(r)
-	pr.runGens(gens, []string{"F-crlf", "B-crlf/F-crlf", "B-lfcr/F-crlf", "F-locals", "F-getinfo", "F-nestlocals", "B-crlf/F-getinfo", "B-crlf/F-locals", "F-faultline"})
+	pr.runGens(gens, []string{"F-crlf", "B-crlf/F-crlf", "B-lfcr/F-crlf", "F-locals", "F-getinfo", "F-nestlocals", "F-firstblock", "B-crlf/F-getinfo", "B-crlf/F-locals", "F-faultline"})
 }
 
 // layouts for a program with ntok tokens; quick tier thins the gap sweep for large programs
